@@ -1,0 +1,463 @@
+//go:build verif
+
+// Verification hooks (add-only, guarded by the build tag "verif").
+// Exported wrappers around unexported functions and fields so that the
+// verification harness in /verif can drive a server deterministically
+// ("stepper" mode) and observe its state. No protocol logic lives here.
+
+package raft
+
+import (
+	"container/list"
+	"io"
+	"sync/atomic"
+	"time"
+)
+
+// ---------------------------------------------------------------- construction
+
+// VerifNewRaft builds a server without starting any goroutine.
+func VerifNewRaft(conf *Config, fsm FSM, logs LogStore, stable StableStore, snaps SnapshotStore, trans Transport) (*Raft, error) {
+	conf.skipStartup = true
+	return NewRaft(conf, fsm, logs, stable, snaps, trans)
+}
+
+// VerifStartFSM starts only the FSM goroutine.
+func (r *Raft) VerifStartFSM() { r.goFunc(r.runFSM) }
+
+// VerifStartMain starts only the main goroutine.
+func (r *Raft) VerifStartMain() { r.goFunc(r.run) }
+
+// VerifStartSnapshots starts only the snapshot goroutine.
+func (r *Raft) VerifStartSnapshots() { r.goFunc(r.runSnapshots) }
+
+// VerifServeConfigurations answers configurationsCh the way every main loop does,
+// for takeSnapshot in stepper mode. Returns when stop is closed.
+func (r *Raft) VerifServeConfigurations(stop <-chan struct{}) {
+	for {
+		select {
+		case c := <-r.configurationsCh:
+			c.configurations = r.configurations.Clone()
+			c.respond(nil)
+		case <-stop:
+			return
+		case <-r.shutdownCh:
+			return
+		}
+	}
+}
+
+// ---------------------------------------------------------------- handlers
+
+// VerifProcessRPC runs one RPC through processRPC on the caller's goroutine and
+// returns what the handler answered.
+func (r *Raft) VerifProcessRPC(cmd interface{}, reader io.Reader) (interface{}, error) {
+	ch := make(chan RPCResponse, 1)
+	r.processRPC(RPC{Command: cmd, Reader: reader, RespChan: ch})
+	resp := <-ch
+	return resp.Response, resp.Error
+}
+
+// VerifVoteResult is the exported image of voteResult / preVoteResult.
+type VerifVoteResult struct {
+	Term    uint64
+	Granted bool
+	VoterID ServerID
+}
+
+// VerifElectSelf calls electSelf and returns the channel's buffered self-vote (if any);
+// peers are asked through the transport as usual.
+func (r *Raft) VerifElectSelf() (ok bool, ch <-chan *voteResult) {
+	c := r.electSelf()
+	return c != nil, c
+}
+
+// VerifDrainVotes reads up to n results from a vote channel, waiting at most d for each.
+func VerifDrainVotes(ch <-chan *voteResult, n int, d time.Duration) []VerifVoteResult {
+	var out []VerifVoteResult
+	for i := 0; i < n; i++ {
+		select {
+		case v := <-ch:
+			out = append(out, VerifVoteResult{Term: v.Term, Granted: v.Granted, VoterID: v.voterID})
+		case <-time.After(d):
+			return out
+		}
+	}
+	return out
+}
+
+// VerifPreElectSelf calls preElectSelf.
+func (r *Raft) VerifPreElectSelf() <-chan *preVoteResult { return r.preElectSelf() }
+
+// VerifDrainPreVotes reads up to n results from a pre-vote channel.
+func VerifDrainPreVotes(ch <-chan *preVoteResult, n int, d time.Duration) []VerifVoteResult {
+	var out []VerifVoteResult
+	for i := 0; i < n; i++ {
+		select {
+		case v := <-ch:
+			out = append(out, VerifVoteResult{Term: v.Term, Granted: v.Granted, VoterID: v.voterID})
+		case <-time.After(d):
+			return out
+		}
+	}
+	return out
+}
+
+// VerifSetState sets the role (through setState, like the code does).
+func (r *Raft) VerifSetState(s RaftState) { r.setState(s) }
+
+// VerifSetLeader sets the advertised leader.
+func (r *Raft) VerifSetLeader(addr ServerAddress, id ServerID) { r.setLeader(addr, id) }
+
+// VerifSetTransferFlag sets candidateFromLeadershipTransfer.
+func (r *Raft) VerifSetTransferFlag(v bool) { r.candidateFromLeadershipTransfer.Store(v) }
+
+// VerifTransferFlag reads candidateFromLeadershipTransfer.
+func (r *Raft) VerifTransferFlag() bool { return r.candidateFromLeadershipTransfer.Load() }
+
+// VerifSetupLeaderState runs setupLeaderState (no replication goroutines are started).
+func (r *Raft) VerifSetupLeaderState() { r.setupLeaderState() }
+
+// VerifDispatch dispatches entries of the given types/payloads like the leader loop
+// does for applyCh, returning the futures.
+func (r *Raft) VerifDispatch(types []LogType, datas [][]byte) []ApplyFuture {
+	fs := make([]*logFuture, len(types))
+	out := make([]ApplyFuture, len(types))
+	for i := range types {
+		f := &logFuture{log: Log{Type: types[i], Data: datas[i]}}
+		f.init()
+		fs[i] = f
+		out[i] = f
+	}
+	r.dispatchLogs(fs)
+	return out
+}
+
+// VerifLeaderCommit performs what leaderLoop does on a commitCh notification.
+// It is a transcription of the `case <-r.leaderState.commitCh` body (re-stated, not called):
+// properties depending on it are tied additionally through the real loop.
+func (r *Raft) VerifLeaderCommit() {
+	oldCommitIndex := r.getCommitIndex()
+	commitIndex := r.leaderState.commitment.getCommitIndex()
+	r.setCommitIndex(commitIndex)
+	if r.configurations.latestIndex > oldCommitIndex && r.configurations.latestIndex <= commitIndex {
+		r.setCommittedConfiguration(r.configurations.latest, r.configurations.latestIndex)
+	}
+	var groupReady []*list.Element
+	groupFutures := make(map[uint64]*logFuture)
+	var lastIdxInGroup uint64
+	for e := r.leaderState.inflight.Front(); e != nil; e = e.Next() {
+		commitLog := e.Value.(*logFuture)
+		idx := commitLog.log.Index
+		if idx > commitIndex {
+			break
+		}
+		groupReady = append(groupReady, e)
+		groupFutures[idx] = commitLog
+		lastIdxInGroup = idx
+	}
+	if len(groupReady) != 0 {
+		r.processLogs(lastIdxInGroup, groupFutures)
+		for _, e := range groupReady {
+			r.leaderState.inflight.Remove(e)
+		}
+	}
+}
+
+// VerifProcessLogs calls processLogs(index, nil).
+func (r *Raft) VerifProcessLogs(index uint64) { r.processLogs(index, nil) }
+
+// VerifTakeSnapshot calls takeSnapshot.
+func (r *Raft) VerifTakeSnapshot() (string, error) { return r.takeSnapshot() }
+
+// VerifRestoreUserSnapshot calls restoreUserSnapshot.
+func (r *Raft) VerifRestoreUserSnapshot(meta *SnapshotMeta, reader io.Reader) error {
+	return r.restoreUserSnapshot(meta, reader)
+}
+
+// VerifCheckLeaderLease calls checkLeaderLease.
+func (r *Raft) VerifCheckLeaderLease() time.Duration { return r.checkLeaderLease() }
+
+// VerifQuorumSize calls quorumSize.
+func (r *Raft) VerifQuorumSize() int { return r.quorumSize() }
+
+// VerifCompactLogsWithTrailing calls compactLogsWithTrailing.
+func (r *Raft) VerifCompactLogsWithTrailing(snapIdx, lastLogIdx, trailing uint64) error {
+	return r.compactLogsWithTrailing(snapIdx, lastLogIdx, trailing)
+}
+
+// VerifCompactLogs calls compactLogs.
+func (r *Raft) VerifCompactLogs(snapIdx uint64) error { return r.compactLogs(snapIdx) }
+
+// VerifAppendConfigurationEntry runs appendConfigurationEntry for a request and returns the future.
+func (r *Raft) VerifAppendConfigurationEntry(cmd ConfigurationChangeCommand, id ServerID, addr ServerAddress, prev uint64) IndexFuture {
+	f := &configurationChangeFuture{req: configurationChangeRequest{command: cmd, serverID: id, serverAddress: addr, prevIndex: prev}}
+	f.init()
+	r.appendConfigurationEntry(f)
+	return f
+}
+
+// VerifConfigGateOpen reports whether configurationChangeChIfStable() is non-nil.
+func (r *Raft) VerifConfigGateOpen() bool { return r.configurationChangeChIfStable() != nil }
+
+// VerifVerifyLeader runs verifyLeader on a fresh future and returns it with its counters.
+type VerifVerify struct{ f *verifyFuture }
+
+func (r *Raft) VerifVerifyLeader() *VerifVerify {
+	v := &verifyFuture{}
+	v.init()
+	r.verifyLeader(v)
+	return &VerifVerify{f: v}
+}
+
+// Vote casts a vote on the future the way replication goroutines do.
+func (v *VerifVerify) Vote(leader bool) { v.f.vote(leader) }
+
+// Counters returns votes and quorumSize.
+func (v *VerifVerify) Counters() (votes, quorum int) {
+	v.f.voteLock.Lock()
+	defer v.f.voteLock.Unlock()
+	return v.f.votes, v.f.quorumSize
+}
+
+// VerifVerifyRegistered lists the peers whose replication state holds the future.
+func (r *Raft) VerifVerifyRegistered(v *VerifVerify) []ServerID {
+	var out []ServerID
+	for id, repl := range r.leaderState.replState {
+		repl.notifyLock.Lock()
+		if _, ok := repl.notify[v.f]; ok {
+			out = append(out, id)
+		}
+		repl.notifyLock.Unlock()
+	}
+	return out
+}
+
+// VerifAddReplState installs a followerReplication for a peer without starting goroutines
+// (struct literal re-stated from startStopReplication).
+func (r *Raft) VerifAddReplState(server Server, lastContact time.Time) {
+	s := &followerReplication{
+		peer:                server,
+		commitment:          r.leaderState.commitment,
+		stopCh:              make(chan uint64, 1),
+		triggerCh:           make(chan struct{}, 1),
+		triggerDeferErrorCh: make(chan *deferError, 1),
+		currentTerm:         r.getCurrentTerm(),
+		nextIndex:           r.getLastIndex() + 1,
+		lastContact:         lastContact,
+		notify:              make(map[*verifyFuture]struct{}),
+		notifyCh:            make(chan struct{}, 1),
+		stepDown:            r.leaderState.stepDown,
+	}
+	r.leaderState.replState[server.ID] = s
+}
+
+// VerifSetPeerLastContact sets a peer's lastContact.
+func (r *Raft) VerifSetPeerLastContact(id ServerID, t time.Time) {
+	s := r.leaderState.replState[id]
+	s.lastContactLock.Lock()
+	s.lastContact = t
+	s.lastContactLock.Unlock()
+}
+
+// VerifReplicateTo runs replicateTo for a peer (failures reset first so that the
+// back-off sleeps stay out of the run); closing stop ends it at CHECK_MORE.
+func (r *Raft) VerifReplicateTo(id ServerID, lastIndex uint64) bool {
+	s := r.leaderState.replState[id]
+	s.failures = 0
+	return r.replicateTo(s, lastIndex)
+}
+
+// VerifReplNext returns a peer's nextIndex and failures.
+func (r *Raft) VerifReplNext(id ServerID) (next uint64, failures uint64) {
+	s := r.leaderState.replState[id]
+	return atomic.LoadUint64(&s.nextIndex), s.failures
+}
+
+// VerifSetReplNext sets a peer's nextIndex.
+func (r *Raft) VerifSetReplNext(id ServerID, next uint64) {
+	atomic.StoreUint64(&r.leaderState.replState[id].nextIndex, next)
+}
+
+// VerifStopRepl closes a peer's stopCh (replicateTo then returns at CHECK_MORE).
+func (r *Raft) VerifStopRepl(id ServerID) { close(r.leaderState.replState[id].stopCh) }
+
+// VerifSetupAppendEntries builds the request replication would send.
+func (r *Raft) VerifSetupAppendEntries(id ServerID, nextIndex, lastIndex uint64) (*AppendEntriesRequest, error) {
+	req := new(AppendEntriesRequest)
+	err := r.setupAppendEntries(r.leaderState.replState[id], req, nextIndex, lastIndex)
+	return req, err
+}
+
+// ---------------------------------------------------------------- pure functions
+
+// VerifNextConfiguration wraps nextConfiguration.
+func VerifNextConfiguration(current Configuration, currentIndex uint64, cmd ConfigurationChangeCommand, id ServerID, addr ServerAddress, prev uint64) (Configuration, error) {
+	return nextConfiguration(current, currentIndex, configurationChangeRequest{command: cmd, serverID: id, serverAddress: addr, prevIndex: prev})
+}
+
+// VerifCheckConfiguration wraps checkConfiguration.
+func VerifCheckConfiguration(c Configuration) error { return checkConfiguration(c) }
+
+// VerifHasVote wraps hasVote.
+func VerifHasVote(c Configuration, id ServerID) bool { return hasVote(c, id) }
+
+// VerifInConfiguration wraps inConfiguration.
+func VerifInConfiguration(c Configuration, id ServerID) bool { return inConfiguration(c, id) }
+
+// VerifCommitment wraps the commitment type.
+type VerifCommitment struct {
+	c  *commitment
+	ch chan struct{}
+}
+
+// VerifNewCommitment wraps newCommitment.
+func VerifNewCommitment(configuration Configuration, startIndex uint64) *VerifCommitment {
+	ch := make(chan struct{}, 1)
+	return &VerifCommitment{c: newCommitment(ch, configuration, startIndex), ch: ch}
+}
+
+// Match wraps commitment.match.
+func (v *VerifCommitment) Match(id ServerID, idx uint64) { v.c.match(id, idx) }
+
+// SetConfiguration wraps commitment.setConfiguration.
+func (v *VerifCommitment) SetConfiguration(c Configuration) { v.c.setConfiguration(c) }
+
+// CommitIndex wraps commitment.getCommitIndex.
+func (v *VerifCommitment) CommitIndex() uint64 { return v.c.getCommitIndex() }
+
+// Notified reports (and clears) whether commitCh was notified.
+func (v *VerifCommitment) Notified() bool {
+	select {
+	case <-v.ch:
+		return true
+	default:
+		return false
+	}
+}
+
+// VerifBackoff wraps backoff.
+func VerifBackoff(base time.Duration, round, limit uint64) time.Duration {
+	return backoff(base, round, limit)
+}
+
+// VerifCappedBackoff wraps cappedExponentialBackoff.
+func VerifCappedBackoff(base time.Duration, round, limit uint64, cap time.Duration) time.Duration {
+	return cappedExponentialBackoff(base, round, limit, cap)
+}
+
+// Constants used by the model's generated tables.
+const (
+	VerifMinCheckInterval = minCheckInterval
+	VerifFailureWait      = failureWait
+	VerifMaxFailureScale  = maxFailureScale
+)
+
+// ---------------------------------------------------------------- observation
+
+// VerifState is a snapshot of the volatile state of a server.
+type VerifState struct {
+	Role                               RaftState
+	Term                               uint64
+	CommitIndex, LastApplied           uint64
+	LastLogIndex, LastLogTerm          uint64
+	LastSnapshotIndex, LastSnapshotTerm uint64
+	Latest, Committed                  Configuration
+	LatestIndex, CommittedIndex        uint64
+	LeaderAddr                         ServerAddress
+	LeaderID                           ServerID
+	TransferFlag                       bool
+	IsLeaderStateSet                   bool
+	StartIndex                         uint64
+	LeaderCommit                       uint64
+	Inflight                           []uint64
+	Match                              map[ServerID]uint64
+	Next                               map[ServerID]uint64
+}
+
+// VerifNodeState reads the volatile state. Main-thread fields are read without
+// synchronisation: call it only while the main goroutine is not running (stepper mode)
+// or from the main goroutine itself (inside a store/transport call).
+func (r *Raft) VerifNodeState() VerifState {
+	s := VerifState{
+		Role:           r.getState(),
+		Term:           r.getCurrentTerm(),
+		CommitIndex:    r.getCommitIndex(),
+		LastApplied:    r.getLastApplied(),
+		Latest:         r.configurations.latest.Clone(),
+		Committed:      r.configurations.committed.Clone(),
+		LatestIndex:    r.configurations.latestIndex,
+		CommittedIndex: r.configurations.committedIndex,
+		TransferFlag:   r.candidateFromLeadershipTransfer.Load(),
+	}
+	s.LastLogIndex, s.LastLogTerm = r.getLastLog()
+	s.LastSnapshotIndex, s.LastSnapshotTerm = r.getLastSnapshot()
+	s.LeaderAddr, s.LeaderID = r.LeaderWithID()
+	if r.leaderState.commitment != nil {
+		s.IsLeaderStateSet = true
+		s.StartIndex = r.leaderState.commitment.startIndex
+		s.LeaderCommit = r.leaderState.commitment.getCommitIndex()
+		s.Match = map[ServerID]uint64{}
+		r.leaderState.commitment.Lock()
+		for k, v := range r.leaderState.commitment.matchIndexes {
+			s.Match[k] = v
+		}
+		r.leaderState.commitment.Unlock()
+		for e := r.leaderState.inflight.Front(); e != nil; e = e.Next() {
+			s.Inflight = append(s.Inflight, e.Value.(*logFuture).log.Index)
+		}
+		s.Next = map[ServerID]uint64{}
+		for id, repl := range r.leaderState.replState {
+			s.Next[id] = atomic.LoadUint64(&repl.nextIndex)
+		}
+	}
+	return s
+}
+
+// VerifGate is what configurationChangeChIfStable looks at.
+type VerifGate struct {
+	CommitIndex, LatestIndex, CommittedIndex, StartIndex uint64
+	IsLeader                                            bool
+}
+
+// VerifGateSnapshot returns the decision-time values of the membership-change gate.
+// Call it from the main goroutine (e.g. inside the leader's StoreLogs).
+func (r *Raft) VerifGateSnapshot() VerifGate {
+	g := VerifGate{
+		CommitIndex:    r.getCommitIndex(),
+		LatestIndex:    r.configurations.latestIndex,
+		CommittedIndex: r.configurations.committedIndex,
+	}
+	if r.leaderState.commitment != nil {
+		g.IsLeader = true
+		g.StartIndex = r.leaderState.commitment.startIndex
+	}
+	return g
+}
+
+// ---------------------------------------------------------------- stimuli
+
+// VerifFireHeartbeatTimeout makes a follower's heartbeat timer fire now with a stale
+// last contact (the real heartbeat-timeout path then runs on the main goroutine).
+func (r *Raft) VerifFireHeartbeatTimeout() {
+	r.lastContactLock.Lock()
+	r.lastContact = time.Time{}
+	r.lastContactLock.Unlock()
+	asyncNotifyCh(r.followerNotifyCh)
+}
+
+// VerifFollowerTimeoutDecision evaluates the decision taken by runFollower when the
+// heartbeat timer fires without contact (transcribed condition, re-stated not called):
+// 0 = stay (no known peers), 1 = stay (not part of stable configuration),
+// 2 = become candidate, 3 = stay (non-voter).
+func (r *Raft) VerifFollowerTimeoutDecision() int {
+	if r.configurations.latestIndex == 0 {
+		return 0
+	} else if r.configurations.latestIndex == r.configurations.committedIndex &&
+		!hasVote(r.configurations.latest, r.localID) {
+		return 1
+	} else if hasVote(r.configurations.latest, r.localID) {
+		return 2
+	}
+	return 3
+}
